@@ -321,7 +321,10 @@ Apply2(op, ra, rb) ==
          IN IF op \in ShiftOps THEN From2(Shift(op, a, b), ra, rb)
             ELSE IF ~compat \/ (~Untyped(a) /\ ~Untyped(b) /\ a.typ # b.typ) THEN From2(Illtyped, ra, rb)
             ELSE LET m == Match(a, b)
-                 IN IF m.r.st = "reject" THEN From2([m.r EXCEPT !.why.site = "implicit-" \o cl], ra, rb)
+                 IN IF m.r.st = "reject" THEN
+                        \* (a zero divisor is a second, independent reason to reject the same operation)
+                        AddTags(From2([m.r EXCEPT !.why.site = "implicit-" \o cl], ra, rb),
+                                IF op \in {"/", "%"} /\ IsNum(b) /\ IsZero(b.i) THEN {"also-divzero"} ELSE {})
                     ELSE IF m.r.st # "ok" THEN From2(m.r, ra, rb)
                     ELSE IF op \in ArithOps THEN
                         AddTags(From2(Arith(op, m.a, m.b), ra, rb),
